@@ -13,8 +13,14 @@ structure CS where
   rep : Report := {}
   line : Nat := 0
   -- Spec-side (model-free) monitors on the observed ReadClock sequence
-  lastClock : Nat := 0          -- last observed clock since the last non-orderly restart
-  sawCut : Bool := false
+  lastClock : Nat := 0          -- last observed clock
+  sawCut : Bool := false        -- a restart happened since the last ReadClock
+  preCut : Nat := 0             -- last Clock observed before the latest NON-orderly restart
+  cutNonOrderly : Bool := false -- no successful Startup(orderly) consumed it yet
+  lastReset : Nat := 0
+  lastRestart : Nat := 0
+  sawResume : Bool := false
+  haveObs : Bool := false       -- a ReadClock was observed in this history
 
 def mism (c : CS) (msg : String) : CS :=
   { c with rep := { c.rep with mismatches := c.rep.mismatches ++ [s!"line {c.line}: {msg}"] } }
@@ -39,6 +45,7 @@ def step (c : CS) (l : Line) : CS :=
   let c := { c with line := c.line + 1 }
   match l.kind with
   | "host" => { c with mono := l.nat "mono", real := l.nat "real" }
+  | "hist" => { c with haveObs := false, lastClock := 0, sawCut := false, sawResume := false, cutNonOrderly := false, lastReset := 0, lastRestart := 0 }
   | "fresh" =>
       -- new TPM manufactured (orderlyState = TPM_SU_CLEAR, clock 0, safe) and `_TPM_Init` at the current host time
       let nv0 : Nv := { orderly := 0 }
@@ -58,19 +65,29 @@ def step (c : CS) (l : Line) : CS :=
         match inf with
         | none => c
         | some i =>
-          let c := if l.nat "time" ≠ i.time then mism c s!"readclock time model={i.time} impl={l.nat "time"}" else c
-          let c := if l.nat "clock" ≠ i.clock then mism c s!"readclock clock model={i.clock} impl={l.nat "clock"}" else c
-          let c := if l.nat "reset" ≠ i.resetCount then mism c s!"readclock resetCount model={i.resetCount} impl={l.nat "reset"}" else c
-          let c := if l.nat "restart" ≠ i.restartCount then mism c s!"readclock restartCount model={i.restartCount} impl={l.nat "restart"}" else c
-          let c := if (l.nat "safe" ≠ 0) ≠ i.safe then mism c s!"readclock safe model={i.safe} impl={l.nat "safe"}" else c
-          -- Spec monitor (model-free): clock never decreases between ReadClocks unless a power cut intervened
+          -- the observables C16 speaks about: a difference here is a failing input for the property
+          let c := if l.nat "time" ≠ i.time then mism c s!"SPEC[time-rate] readclock time model={i.time} impl={l.nat "time"}" else c
+          let c := if l.nat "clock" ≠ i.clock then mism c s!"SPEC[clock-rate] readclock clock model={i.clock} impl={l.nat "clock"}" else c
+          let c := if l.nat "reset" ≠ i.resetCount then mism c s!"SPEC[reset-count] readclock resetCount model={i.resetCount} impl={l.nat "reset"}" else c
+          let c := if l.nat "restart" ≠ i.restartCount then mism c s!"SPEC[restart-count] readclock restartCount model={i.restartCount} impl={l.nat "restart"}" else c
+          let c := if (l.nat "safe" ≠ 0) ≠ i.safe then mism c s!"SPEC[safe-flag] readclock safe model={i.safe} impl={l.nat "safe"}" else c
+          -- Spec monitors (model-free, on the observed sequence only)
           let oc := l.nat "clock"
-          let c := if !c.sawCut && oc < c.lastClock then mism c s!"SPEC clock decreased {c.lastClock} -> {oc}" else c
-          { c with lastClock := oc, sawCut := false }
+          let c := if c.haveObs && !c.sawCut && oc < c.lastClock then mism c s!"SPEC[clock-decreased] clock {c.lastClock} -> {oc} without a restart" else c
+          let c := if c.cutNonOrderly && l.nat "safe" ≠ 0 && oc < c.preCut then
+                     mism c s!"SPEC[safe-before-passed] safe=YES at clock={oc} but clock was {c.preCut} before the power cut" else c
+          let c := if c.haveObs && c.sawResume && (l.nat "reset" ≠ c.lastReset || l.nat "restart" ≠ c.lastRestart) then
+                     mism c s!"SPEC[counters-changed-by-resume] reset {c.lastReset}->{l.nat "reset"} restart {c.lastRestart}->{l.nat "restart"}" else c
+          let c := if c.haveObs && !c.sawCut && l.nat "reset" ≠ c.lastReset then
+                     mism c s!"SPEC[reset-count-changed] resetCount {c.lastReset}->{l.nat "reset"} without a restart" else c
+          { c with haveObs := true, lastClock := oc, sawCut := false, sawResume := false, lastReset := l.nat "reset", lastRestart := l.nat "restart",
+                   cutNonOrderly := c.cutNonOrderly && !(l.nat "safe" ≠ 0) }
   | "restart" =>
       let c := branch c s!"restart/orderly={isOrderly c.st.disk.orderly}"
       let c := if l.nat "ret" ≠ 0 then mism c s!"MainInit after restart returned {l.nat "ret"}" else c
-      { c with st := c.st.restart c.mono, sawCut := true }
+      let nonOrd := l.nat "orderly" = 0
+      { c with st := c.st.restart c.mono, sawCut := true, sawResume := false,
+               preCut := if nonOrd then c.lastClock else c.preCut, cutNonOrderly := nonOrd }
   | "suspend" => { c with saved := some (c.st.suspend c.mono c.real) }
   | "resume" =>
       match c.saved with
@@ -78,7 +95,7 @@ def step (c : CS) (l : Line) : CS :=
       | some sv =>
         let c := branch c s!"resume/monoBack={decide (c.mono < sv.monoPlusAdj)}/realBack={decide (c.real < sv.realAtSave)}"
         let c := if l.nat "ret" ≠ 0 then mism c s!"resume returned {l.nat "ret"}" else c
-        { c with st := resume sv c.mono c.real, saved := none }
+        { c with st := resume sv c.mono c.real, saved := none, sawResume := !c.sawCut }
   | _ => c
 
 def check (ls : List Line) : Report := (ls.foldl step {}).rep
